@@ -144,7 +144,7 @@ def instance(cls, env):
 OPERAND_SLOTS = ["arith_left", "arith_right", "cmp_left", "cmp_right", "bool_right", "not", "neg", "in_term", "in_elem", "between_term", "between_lo",
                  "fn_arg", "case_when", "case_then", "case_else", "tuple_elem", "array_elem", "isnull", "where_root", "having_root", "on_root",
                  "win_partition", "win_order", "select_arith", "select_fn_arg", "insert_value", "insert_row_last", "update_set_value", "orderby_expr", "groupby_expr", "conflict_target", "values_fn_arg", "attz_field", "extract_field", "cast_arg", "bool_left", "bool_or_left", "period_term", "period_bound", "like_pattern", "json_operand", "update_orderby", "all_operand",
-                 "bitand_term", "like_term", "notnull", "between_hi", "regex_term", "json_left", "in_list_term", "notin_term", "for_criterion", "for_portion_criterion"]
+                 "bitand_term", "bitand_value", "like_term", "notnull", "between_hi", "regex_term", "json_left", "in_list_term", "notin_term", "for_criterion", "for_portion_criterion"]
 DEFINING = ["select", "select_last", "returning", "distinct_on"]
 # the same operand slots with the enclosing expression as a select-list item (the one clause rendered with with_alias=True), and with it as
 # an aliased select-list item: the operand's alias must not appear, the item's own alias exactly once
@@ -270,6 +270,8 @@ def statement(cls_name, pos, X, as_selectable=False):
         return Q.update(t.for_portion(X)).set(d, 1)
     elif pos == "bitand_term":
         w = X.bitwiseand(3) == 1
+    elif pos == "bitand_value":
+        w = d.bitwiseand(X) == 1  # the right operand of the bit test
     elif pos == "like_term":
         w = X.like("a%")
     elif pos == "notnull":
